@@ -11,7 +11,8 @@ def cfg(name, head, ch, streams="MCStreams", inv=SAFE, props="", spec=None, mut=
         maxdup=2, extra=1, sw=FIX, maxgot=2):
     c = dict(sw)
     lines = ["\\* " + head,
-             "CONSTANTS Streams <- %s Choices <- %s BadBatches <- MCBad InitHeight = 1 MaxHeight = %d" % (streams, ch, maxh),
+             "CONSTANTS Streams %s %s Choices <- %s BadBatches <- MCBad InitHeight = 1 MaxHeight = %d" % (
+                 "=" if streams.startswith("{") else "<-", streams, ch, maxh),
              "  InputCap = %d OutCap = %d MaxDup = %d MaxExtra = %d MaxGot = %d" % (inputcap, outcap, maxdup, extra, maxgot),
              "  FixNilState = %s FixBlock = %s FixReFin = %s SeqWindow = %s BufBound = %s Mut = \"%s\"" % (
                  c["FixNilState"], c["FixBlock"], c["FixReFin"], c["SeqWindow"], c["BufBound"], mut)]
@@ -59,6 +60,6 @@ cfg("x_window", "design limit of the repair: a window below the stream length lo
 cfg("x_nocommitcheck", "mutant: the commitment is not compared", "ChXCommit", inv="BadStreamNeverDelivers", mut="nocommitcheck", **X)
 cfg("x_nofincheck", "mutant: the proposal fin is not compared", "ChXFin", inv="BadStreamNeverDelivers", mut="nofincheck", **X)
 cfg("x_noorder", "mutant: parts are processed in arrival order", "ChXHon", inv="", props="HonestDelivered", spec="FairSpec", mut="noorder", inputcap=4, **X)
-cfg("x_restart", "mutant: a second number-0 message restarts the stream", "ChXReFin", inv="AtMostOneProposalPerStream", mut="restart", extra=5, maxdup=2, inputcap=4, maxh=1)
+cfg("x_restart", "mutant: a second number-0 message restarts the stream", "ChXOne", streams="{1}", inv="AtMostOneProposalPerStream", mut="restart", extra=5, maxdup=2, inputcap=4, maxh=1)
 cfg("x_keeponcommit", "mutant: a commit does not stop the streams of the old height", "ChXHon", inv="RunsAtOwnHeight", mut="keeponcommit", **X)
 cfg("x_startearly", "mutant: a stream of a future height runs at once", "ChXHon", inv="FutureWaits", mut="startearly", **X)
